@@ -47,6 +47,24 @@ pub struct AuthSeen {
     pub outcome_class: String,
 }
 
+/// the real clock with its sub-second part
+pub fn now_f64() -> f64 {
+    std::time::SystemTime::now().duration_since(std::time::UNIX_EPOCH).map_or(0.0, |d| d.as_secs_f64())
+}
+
+/// waits until the clock is between 0.25 s and 0.6 s into a second; returns (the whole second, the instant)
+pub fn wait_for_mid_second() -> (i64, f64) {
+    loop {
+        let t = now_f64();
+        let frac = t - t.floor();
+        if (0.25..=0.6).contains(&frac) {
+            return (t.floor() as i64, t);
+        }
+        let wait = if frac < 0.25 { 0.27 - frac } else { 1.27 - frac };
+        std::thread::sleep(std::time::Duration::from_secs_f64(wait.max(0.005)));
+    }
+}
+
 pub fn run_auth(rt: &tokio::runtime::Runtime, cfg: &SvcCfg, req: &RawRequest) -> AuthSeen {
     let (out, events) = run_once(rt, cfg, None, req);
     let mut hook_cred = None;
